@@ -4,8 +4,8 @@ import common
 from common import tlc, tlc_ok, tlc_must_fail, build_driver, judge, ToolError, log, HARNESS
 import eng_eval
 
-TIERS = {"quick": dict(mc="MC_Sync.cfg", trials=40, threads=8, iters=150, lock=(16, 8, 25), crowd=(5, 128, 40)),
-         "thorough": dict(mc="MC_Sync_thorough.cfg", trials=1500, threads=16, iters=300, lock=(400, 8, 40), crowd=(60, 160, 60))}
+TIERS = {"quick": dict(mc="MC_Sync.cfg", trials=40, threads=8, iters=150, lock=(16, 8, 81), crowd=(5, 128, 40), lex=(6, 12, 400)),
+         "thorough": dict(mc="MC_Sync_thorough.cfg", trials=1500, threads=16, iters=300, lock=(300, 8, 162), crowd=(60, 160, 60), lex=(200, 16, 1000))}
 
 
 def distinct_events(events):
@@ -122,11 +122,51 @@ def run(prop, tier, seed, work, ev):
     import eng_funcs
     sig = work.path("sig.cases")
     eng_funcs.gen_call(work, "sig", sig, 1, 3, via="doc")
+    # ... and the value domains of the string / array functions (separators, empty and repeated elements, code points)
+    val = work.path("val.cases")
+    eng_funcs.gen_call(work, "val", val, 3, 3)
+    with open(sig, "a") as f:
+        for line in open(val):
+            r = json.loads(line)
+            name = common.uncps(r["text"]).split("(")[0]
+            if "doc" in r and name in ("join", "contains", "starts_with", "ends_with", "reverse", "keys", "values", "merge", "not_null", "to_string", "to_number"):
+                f.write(line)
+    # ... and long arguments for the string functions (the longer a call works on its arguments, the more the threads overlap inside it)
+    with open(sig, "a") as f:
+        long_s = ["s%02d-abcdefghijklmnop" % i for i in range(40)]
+        for glue in (",", "--", "p"):
+            for tail in ([""], ["", ""], ["x" + glue], ["last"], [glue], []):
+                f.write(json.dumps({"e": "val", "text": common.cps("join(a, b)"), "doc": common.to_tagged({"a": glue, "b": long_s + tail})}) + "\n")
+        for fn in ("reverse(b)", "sort(b)", "max(b)", "min(b)", "length(b)", "to_string(b)", "contains(b, a)", "keys(o)", "values(o)", "merge(o, o)", "not_null(z, b)"):
+            f.write(json.dumps({"e": "val", "text": common.cps(fn), "doc": common.to_tagged({"a": "s07-abcdefghijklmnop", "b": long_s, "z": None,
+                                                                                               "o": {k: i for i, k in enumerate(long_s)}})}) + "\n")
     n, th, rounds = t["lock"]
     levents = work.path("lock.obs")
     trials("sync-lockstep", n, th, rounds, sig, levents)
-    stats, rej = judge("tv/TV_Eval.tla", None, levents, work)
-    ev.add_judged("lock-step: %d trials x %d threads x %d rounds on fresh runtimes, signature decision table" % (n, th, rounds), stats, rej, levents, nsamples=1)
+    dpath, total, distinct = distinct_events(levents)
+    ev.extra["thread_events_total"] = ev.extra.get("thread_events_total", 0) + total
+    stats, rej = judge("tv/TV_Eval.tla", None, dpath, work)
+    ev.add_judged("lock-step: %d trials x %d threads x %d rounds on fresh runtimes, one function per round, every case entered by all threads together and "
+                  "repeated 60 times; signature decision table and string / array value domains (%d events, %d distinct judged)" % (n, th, rounds, total, distinct),
+                  stats, rej, dpath, nsamples=1)
+    rejects += rej
+    # concurrent COMPILES of texts whose tokens need unescaping (escaped delimiters inside raw strings, literals and quoted identifiers):
+    # each thread compiles its own texts while the others compile theirs
+    lp = work.path("lex.cases")
+    with open(lp, "w") as f:
+        ldoc = common.to_tagged({"a": 1, "k`x": 2, "q'r": 3})
+        for i in range(24):
+            for txt in ("'a\\'b%d'" % i, "`\"x\\`y%d\"`" % i, "'%d\\'' == `\"%d'\"`" % (i, i), "`[\"\\`\", %d]`[1]" % i, "\"k`x\" || '\\'%d'" % i,
+                      "length('\\'\\'%d')" % i, "`{\"\\`%d\": %d}`" % (i, i), "'plain%d'" % i):
+                f.write(json.dumps({"text": common.cps(txt), "doc": ldoc}) + "\n")
+    n, th, iters = t["lex"]
+    xevents = work.path("lex.obs")
+    trials("sync-trial", n, th, iters, lp, xevents)
+    dpath, total, distinct = distinct_events(xevents)
+    ev.extra["thread_events_total"] = ev.extra.get("thread_events_total", 0) + total
+    stats, rej = judge("tv/TV_Eval.tla", None, dpath, work)
+    ev.add_judged("concurrent compiles of texts with escaped delimiters: %d trials x %d threads (%d events, %d distinct judged)" % (n, th, total, distinct),
+                  stats, rej, dpath, nsamples=1)
     rejects += rej
     # a crowd: far more threads than cores, each inside many nested calls at once (anything accounted per runtime / per process
     # instead of per search shows as a divergent result)
